@@ -47,6 +47,7 @@ _op = st.one_of(
     st.tuples(st.just("option"), _tgt, _name, st.one_of(st.just(""), _word)),
     st.tuples(st.just("section"), _tgt, _word),
     st.tuples(st.just("title"), _tgt, _word),
+    st.tuples(st.just("retitle-directive"), _tgt, _name),
     st.tuples(st.just("clear"), _tgt),
     st.tuples(st.just("foreign-document"), _tgt, st.lists(st.sampled_from(HEADER_POOL), min_size=1, max_size=4, unique=True)),
     st.tuples(st.just("to_text"), _tgt),
@@ -70,6 +71,8 @@ def strategy(tier):
         "headers": st.lists(st.sampled_from(HEADER_POOL), min_size=1, max_size=10, unique=True),
         "title": _word,
         "ops": ops,
+        # the configured header characters as a list, a tuple (the type of RSTSettings' own default) or a string
+        "hdr_type": st.sampled_from(["list", "tuple", "list", "str"]),
     })
 
 
@@ -137,7 +140,7 @@ def evaluate(case):
     res = Result()
     headers = case["headers"]
     settings = Settings()
-    settings.rst.headers = list(headers)
+    settings.rst.headers = {"tuple": tuple(headers), "str": "".join(headers)}.get(case.get("hdr_type"), list(headers))
     real_root = R.RSTWriter(case["title"], settings=settings)
     model_root = M("w", case["title"], 0, 0)
     open_c = [(real_root, model_root)]
@@ -245,6 +248,14 @@ def evaluate(case):
                 real.title = op[2]
                 model.title = op[2]
                 flags.add("title-change")
+            elif name == "retitle-directive":
+                cands = [(r, m) for r, m in open_c if m.kind == "d"]
+                if not cands:
+                    continue
+                real, model = cands[-1 - (ti % len(cands))]
+                real.title = op[2]          # the title of a directive is its name: '.. <name>:: args'
+                model.title = op[2]
+                flags.add("directive-renamed")
             elif name == "clear":
                 cands = [(r, m) for r, m in open_c if m.kind == "w" or not m.options]
                 if not cands:
